@@ -14,19 +14,23 @@ Ev(a, i, t, n, hint, inc, blk) == [a |-> a, i |-> i, t |-> t, n |-> n, hint |-> 
 Rec(e) == hist' = Append(hist, e)
 
 GInit == Init /\ hist = <<>>
+\* Registrations rotate over the targets with the step number (every target and
+\* every depth can be registered at every second/fourth step) to keep the fan-out
+\* of a state small; this restricts the simulator's choice, not the model.
+Turn(x, k) == (Len(hist) + x) % k = 0
 GNext ==
   /\ Len(hist) < MaxHist
-  /\ \/ \E w \in 1..4 : \E inc \in Incl : Connect(inc) /\ Rec(Ev("Connect", 0, 0, 0, 0, inc, nextBlk))
-     \/ \E w \in 1..16 : Disconnect /\ Rec(Ev("Disconnect", 0, 0, 0, 0, <<>>, 0))
-     \/ \E i \in RegIds, t \in ConfTargets, n \in 1..MaxConfs :
+  /\ \/ \E w \in 1..2 : \E inc \in Incl : Connect(inc) /\ Rec(Ev("Connect", 0, 0, 0, 0, inc, nextBlk))
+     \/ \E w \in 1..5 : Disconnect /\ Rec(Ev("Disconnect", 0, 0, 0, 0, <<>>, 0))
+     \/ \E i \in RegIds, t \in {x \in ConfTargets : Turn(x, Cardinality(ConfTargets))}, n \in 1..MaxConfs :
           \E hint \in HintChoices(ConfAt(t)) :
              RegisterConf(i, t, n, hint) /\ Rec(Ev("RegConf", i, t, n, hint, <<>>, 0))
-     \/ \E w \in 1..3 : \E i \in RegIds, o \in SpendTargets :
+     \/ \E i \in RegIds, o \in {x \in SpendTargets : Turn(x, Cardinality(SpendTargets))} :
           \E hint \in HintChoices(SpentAt(o)) :
              RegisterSpend(i, o, hint) /\ Rec(Ev("RegSpend", i, o, 0, hint, <<>>, 0))
-     \/ \E w \in 1..2 : \E i \in RegIds : Cancel(i) /\ Rec(Ev("Cancel", i, 0, 0, 0, <<>>, 0))
-     \/ \E w \in 1..8 : \E t \in ConfTargets : HistConf(t) /\ Rec(Ev("HistConf", 0, t, 0, 0, <<>>, 0))
-     \/ \E w \in 1..8 : \E o \in SpendTargets : HistSpend(o) /\ Rec(Ev("HistSpend", 0, o, 0, 0, <<>>, 0))
+     \/ \E i \in {x \in RegIds : Turn(x, 3)} : Cancel(i) /\ Rec(Ev("Cancel", i, 0, 0, 0, <<>>, 0))
+     \/ \E w \in 1..4 : \E t \in ConfTargets : HistConf(t) /\ Rec(Ev("HistConf", 0, t, 0, 0, <<>>, 0))
+     \/ \E w \in 1..4 : \E o \in SpendTargets : HistSpend(o) /\ Rec(Ev("HistSpend", 0, o, 0, 0, <<>>, 0))
 GSpec == GInit /\ [][GNext]_<<vars, hist>>
 
 Dump == Len(hist) = MaxHist =>
